@@ -55,3 +55,36 @@ impl vstd::std_specs::convert::FromSpecImpl<DeltaDifferingSizes> for Error {
     open spec fn obeys_from_spec() -> bool { true }
     open spec fn from_spec(e: DeltaDifferingSizes) -> Error { Error::DeltaDifferingSizes }
 }
+
+impl RawSnap {
+    // every item range lies inside the buffer; the format limits hold
+    spec fn wf(&self) -> bool {
+        &&& self.offsets@.len() <= 1024 && 4 * (2 + 2 * self.offsets@.len() + self.buf@.len()) <= 65536
+        &&& forall|k: i32| self.offsets@.contains_key(k) ==>
+                (#[trigger] self.offsets@[k]).start <= self.offsets@[k].end && self.offsets@[k].end <= self.buf@.len()
+    }
+    spec fn item_data(&self, k: i32) -> Seq<i32> {
+        self.buf@.subrange(self.offsets@[k].start as int, self.offsets@[k].end as int)
+    }
+}
+// iteration over a BTreeMap<i32, Range<u32>> (RawSnap::items(), `for (&k, v) in &map`): the key/value pairs, distinct keys
+#[verifier::external_body]
+fn vx_pairs(m: &BTreeMap<i32, ops::Range<u32>>) -> (r: Vec<(i32, ops::Range<u32>)>)
+    ensures
+        r@.len() == m@.len(),
+        forall|j: int| 0 <= j < r@.len() ==> m@.contains_key(#[trigger] r@[j].0) && m@[r@[j].0] == r@[j].1,
+        forall|a: int, b: int| 0 <= a < b < r@.len() ==> r@[a].0 != r@[b].0,
+        forall|k: i32| m@.contains_key(k) ==> exists|j: int| 0 <= j < r@.len() && r@[j].0 == k,
+{ unimplemented!() }
+// <Range<Idx> as Clone>::clone (std: field-wise clone; used with Idx = u32)
+pub assume_specification<Idx: Clone>[<core::ops::Range<Idx> as Clone>::clone](r: &core::ops::Range<Idx>) -> (o: core::ops::Range<Idx>)
+    ensures o == *r,
+;
+
+// every i32 is the key of exactly its (type, id) pair: ASSUMED here (Verus leaves `negative i32 as u32` unspecified in
+// spec code); proved on the real key/key_to_id/key_to_raw_type_id for all 2^32 keys by Kani complete_snap_key_inverse
+#[verifier::external_body]
+proof fn lemma_key_inverse(k: i32)
+    ensures mk_key(k_type(k), k_id(k)) == k,
+{
+}
